@@ -59,8 +59,9 @@ def variant_of(cfg):
     return zlib.crc32(json.dumps([cfg["ts"], cfg["gs"]], sort_keys=True).encode()) % 8
 
 
-def allocate_real(cfg):
-    """build the configuration from real objects, allocate group by group, record what happened"""
+def allocate_real(cfg, ec=None, shift=0):
+    """build the configuration from real objects, allocate group by group, record what happened
+    (on the master ec when given: a bus with a history)"""
     from ebpfcat.ebpfcat import EBPFTerminal, SyncGroup, SimpleEtherCat, Device
     from ebpfcat.terminals import AerotechBase
     from ebpfcat.ethercat import SyncManager
@@ -72,10 +73,10 @@ def allocate_real(cfg):
         def get_terminals(self):
             return dict(self.terms)
 
-    ec = SimpleEtherCat("x")
+    ec = ec or SimpleEtherCat("x")
     variant = cfg.get("variant", variant_of(cfg))
     terms = []
-    for k, t in enumerate(cfg["ts"]):
+    for k, t in enumerate(cfg["ts"], shift % 50):
         if t["mode"] == "A":
             cls = type("Aero%d" % k, (AerotechBase,), dict(in_size=t["din"], out_size=t["dout"]))
             o = cls(ec)
@@ -132,6 +133,65 @@ def allocate_real(cfg):
         if fault:
             rec.update(res="error", exc="frame cannot be walked: " + fault)
     return dict(groups=groups, variant=variant)
+
+
+# ---------- a bus with a history -----------------------------------------------------------------
+
+def bus_masters(kind, lockfile):
+    """the masters (one per process) of one bus: {proc: master}; for a parallel bus two real
+    ParallelEtherCat objects whose FMMULocks (same lock file) got neighbouring process numbers"""
+    import random
+    from ebpfcat.ebpfcat import SimpleEtherCat, ParallelEtherCat
+    from ebpfcat.lock import FMMULock
+    if kind == "simple":
+        return {1: SimpleEtherCat("x")}, []
+    state = random.getstate()
+    random.seed(18)               # FMMULock draws its process number with random.randrange
+    locks = {}
+    try:
+        pair = None
+        while pair is None:
+            if len(locks) > 300:
+                raise T.MachineryError("no two FMMULocks with neighbouring process numbers")
+            lk = FMMULock(lockfile)
+            no = lk.base_addr >> 22
+            locks[no] = lk
+            for lo in (no - 1, no):
+                if lo in locks and lo + 1 in locks:
+                    pair = lo
+    finally:
+        random.setstate(state)
+    masters = {}
+    for proc, no in ((1, pair), (2, pair + 1)):
+        masters[proc] = ParallelEtherCat("x")
+        masters[proc].fmmu_lock_file = locks[no]
+    return masters, list(locks.values())
+
+
+def run_script(script, lockfile):
+    """execute a history script of AllocHistory on real masters; the trace holds every group
+    that is still live, in the order of allocation"""
+    import os
+    if os.path.exists(lockfile):
+        os.remove(lockfile)
+    masters, locks = bus_masters(script["master"], lockfile)
+    groups = []
+    try:
+        for op in script["ops"]:
+            ec = masters[op["proc"]]
+            if op["op"] == "churn":
+                for _ in range(op["n"]):
+                    ec.get_fmmu_addr()      # all an allocation does to the master
+                continue
+            for _ in range(op["n"] if op["op"] == "crowd" else 1):
+                c = dict(ts=op["ts"], gs=[1] * len(op["ts"]), variant=0)
+                groups += allocate_real(c, ec, shift=len(groups))["groups"]
+    finally:
+        for lk in locks:
+            os.close(lk.fd)
+        if os.path.exists(lockfile):
+            os.remove(lockfile)
+    return dict(groups=groups, variant=0)
 
 
 # ---------- configurations --------------------------------------------------------------------
@@ -236,6 +296,39 @@ CHECK_DEADLOCK FALSE
     return []
 
 
+def histories(ctx, wd):
+    """buses with a history: TLC enumerates the scripts of AllocHistory"""
+    q = ctx.quick
+    ks = {6, 8, 10, 11, 12, 14} if q else set(range(4, 19))
+    kinds = {"tiny", "wide"} if q else {"tiny", "wide", "aero"}
+    crowds = {1100} if q else {1100, 4200}
+    T.write_module(wd, "MC18_history", dict(hMasters={"simple", "parallel"}, hKs=ks, hKinds=kinds,
+                                            hCrowds=crowds), extends=("AllocHistory",))
+    T.write_cfg(wd, "MC18_history.cfg", """SPECIFICATION HSpec
+CONSTANTS Masters <- hMasters
+          Ks <- hKs
+          Kinds <- hKinds
+          Crowds <- hCrowds
+INVARIANT Emit
+CHECK_DEADLOCK FALSE
+""")
+    res = T.require_clean(T.run(wd, "MC18_history", "MC18_history.cfg", workers=1, timeout=600),
+                          "AllocHistory")
+    if not res.ok:
+        raise T.MachineryError("AllocHistory: TLC did not finish cleanly\n" + res.out[-2000:])
+    with LOCK:
+        ctx.tlc_stats(res)
+    scripts = [r[0] for r in T.printed_records(res, "SCRIPT")]
+    if not scripts:
+        raise T.MachineryError("AllocHistory: no scripts enumerated")
+    scripts.sort(key=lambda x: json.dumps(x, sort_keys=True))
+    with LOCK:
+      ctx.extra.setdefault("families", {})["history"] = dict(
+        scripts=len(scripts), gap_exponents=sorted(ks), kinds=sorted(kinds), crowds=sorted(crowds),
+        masters=["simple", "parallel (two processes with neighbouring numbers)"])
+    return [dict(script=x, family="history") for x in scripts]
+
+
 def families(ctx):
     q = ctx.quick
     plan = [
@@ -258,11 +351,12 @@ def families(ctx):
         plan.append(("limit2", "AllocBoundary", "EmitB", "FDA",
                      [{0, 2}, {0, 700}], [{0, 64}, {0, 1}], 2, 1, (-13, -2, -1, 2, 13)))
     wds = [ctx.workdir() for _ in plan]     # T.run keeps its metadir inside the work directory
-    with ThreadPoolExecutor(len(plan) + 1) as ex:
+    with ThreadPoolExecutor(len(plan) + 2) as ex:
         design = ex.submit(design_check, ctx, ctx.workdir())
+        hist = ex.submit(histories, ctx, ctx.workdir())
         parts = list(ex.map(lambda a: enumerate_configs(ctx, a[0], *a[1]), zip(wds, plan)))
         design.result()
-    return [c for part in parts for c in part]
+    return [c for part in parts for c in part] + hist.result()
 
 
 # ---------- judging ---------------------------------------------------------------------------
@@ -327,7 +421,8 @@ def judge(ctx, wd, cfgs, batch=24000):
 
 
 def judge_batch(ctx, wd, cfgs):
-    traces = [allocate_real(c) for c in cfgs]
+    lock = wd + "/fmmu.lock"
+    traces = [run_script(c["script"], lock) if "script" in c else allocate_real(c) for c in cfgs]
     results = validate(ctx, [dict(groups=t["groups"]) for t in traces])
     bad = [i for i, (m, n, inv) in enumerate(results) if m != n or isinstance(inv, str)]
     diag = {}
@@ -338,22 +433,42 @@ def judge_batch(ctx, wd, cfgs):
     for i, (c, t, (m, n, inv)) in enumerate(zip(cfgs, traces, results)):
         ctx.traces += 1
         nt = nontrivial(t)
-        ctx.evaluated(json.dumps([c["ts"], c["gs"]], sort_keys=True), nontrivial=nt)
+        hist = "script" in c
+        ctx.evaluated(json.dumps(c["script"] if hist else [c["ts"], c["gs"]], sort_keys=True),
+                      nontrivial=nt)
         rejected += sum(1 for g in t["groups"] if g["res"] == "overflow")
         accepted += sum(1 for g in t["groups"] if g["res"] == "ok")
-        if nt and len(ctx.samples) < 4 and (len(t["groups"]) > 1 or i % 97 == 0):
+        if hist and len(t["groups"]) < 4 and i % 41 == 0:
+            ctx.sample(dict(script=c["script"], windows=[[(d["cmd"], d["adr"], d["len"]) for d in g["dg"]
+                                                          if d["cmd"] in ("LRD", "LWR")]
+                                                         for g in t["groups"]]), limit=6)
+        if not hist and nt and len(ctx.samples) < 4 and (len(t["groups"]) > 1 or i % 97 == 0):
             ctx.sample(dict(config=c, groups=[dict(res=g["res"], assign=g["assign"], lmap=g["lmap"],
                                                    dg=[(d["cmd"], d["hp"], d["len"]) for d in g["dg"]])
                                               for g in t["groups"]]))
         if m != n or isinstance(inv, str):
             g = t["groups"][m] if m < n else None
             why = "; ".join(" ".join(map(str, x)) for x in diag.get(i, [])) or str(inv)
-            case = dict(config=dict(ts=c["ts"], gs=c["gs"], variant=t["variant"],
-                                    none_for_zero=bool(c.get("none_for_zero"))),
+            if hist:
+                ops = c["script"]["ops"]
+                config = dict(script=c["script"])
+                what = (f"{c['script']['master']} bus, " + ", ".join(
+                    f"{o['op']}(proc {o['proc']}" + (f", {o['n']})" if o["op"] != "group" else ")")
+                    for o in ops))
+                more = dict(master=c["script"]["master"], procs=[o["proc"] for o in ops],
+                            allocations=sum(o["n"] if o["op"] != "group" else 1 for o in ops),
+                            per_proc={str(p): sum((o["n"] if o["op"] != "group" else 1)
+                                                  for o in ops if o["proc"] == p)
+                                      for p in sorted({o["proc"] for o in ops})})
+            else:
+                config = dict(ts=c["ts"], gs=c["gs"], variant=t["variant"],
+                              none_for_zero=bool(c.get("none_for_zero")))
+                what, more = str(c["gs"]), {}
+            case = dict(more, config=config,
                         family=c["family"], group=m + 1, observed=g,
                         res=g["res"] if g else None, exc=g["exc"] if g else None,
                         violated=[x[1] for x in diag.get(i, []) if len(x) > 1])
-            ctx.case_failed(case, f"group {m + 1} of {c['gs']}: Alloc rejects the observed "
+            ctx.case_failed(case, f"group {m + 1} of {what}: Alloc rejects the observed "
                                   f"allocation ({g['res'] if g else '-'} {g['exc'] if g else ''}): {why}")
     ctx.extra["groups_accepted"] = ctx.extra.get("groups_accepted", 0) + accepted
     ctx.extra["groups_rejected_overflow"] = ctx.extra.get("groups_rejected_overflow", 0) + rejected
@@ -367,8 +482,8 @@ def run(ctx):
     extra = random_configs(ctx, 600 if ctx.quick else 10000)
     judge(ctx, wd, extra)
     ctx.extra["random_configs"] = len(extra)
-    ctx.rule = ("every configuration TLC enumerates in the families layout / windows / limit (see "
-                "families) plus seeded random ones; each is allocated by the real code and judged "
+    ctx.rule = ("every configuration TLC enumerates in the families layout / windows / limit and "
+                "every bus history of AllocHistory (see families) plus seeded random ones; each is allocated by the real code and judged "
                 "by TLC; non-trivial = a group with >= 2 required regions, or >= 2 groups with "
                 "logical datagrams, or a rejected group")
     ctx.assumptions += [
@@ -385,4 +500,6 @@ def replay(ctx, case):
 
 
 def replay_case(case):
+    if "script" in case["config"]:
+        return run_script(case["config"]["script"], T.workdir("C18r") + "/fmmu.lock")
     return allocate_real(case["config"])
